@@ -112,7 +112,8 @@ func RunTLC(r TLCRun) (*TLCResult, error) {
 	if r.Timeout == 0 {
 		r.Timeout = 10 * time.Minute
 	}
-	args := []string{"-XX:+UseParallelGC", "-Xss256m"}
+	args := []string{"-XX:+UseParallelGC", "-Xss256m", "-Djava.io.tmpdir=" + filepath.Join(dir, "jtmp")}
+	os.MkdirAll(filepath.Join(dir, "jtmp"), 0755)
 	if r.DFS {
 		args = append(args, "-Dtlc2.tool.queue.IStateQueue=StateDeque")
 	}
